@@ -20,7 +20,7 @@ from fractions import Fraction
 from pathlib import Path
 
 VERIF = Path(__file__).resolve().parents[2]
-LEAN = VERIF / "lean"
+LEAN = Path(os.environ.get("PGV_LEAN_DIR") or (VERIF / "lean"))  # PGV_LEAN_DIR: private copy for parallel self-tests only
 REPO = Path(os.environ.get("PGV_REPO", "/repo"))
 SRC = REPO / "src" / "pygaps"
 ALLOWED_AXIOMS = {"propext", "Classical.choice", "Quot.sound"}
@@ -372,6 +372,15 @@ class Check:
         return 0 if ok else 1
 
 
+def anchor_files(pid):
+    for line in (VERIF / "properties.jsonl").read_text().splitlines():
+        if line.strip():
+            d = json.loads(line)
+            if d["id"] == pid:
+                return list(d["anchors"]["files"])
+    return []
+
+
 def load_findings():
     p = VERIF / "known_findings.json"
     if not p.exists():
@@ -424,7 +433,29 @@ def run_check(pid, tier, seed, replay, body, modules=None, gen=None, level="proo
             if tier == "thorough" and os.environ.get("PGV_SKIP_LEANCHECKER") != "1":
                 ck.leanchecker(mods)
         ck.proof_ok = ok and not ck.broken
-        body(ck)
+        cov = None
+        if os.environ.get("PGV_IMPCOV", "1") != "0":
+            from . import impcov
+            cov = impcov.ImpCov(SRC, anchor_files(pid))
+            cov.start()
+        try:
+            body(ck)
+        finally:
+            if cov is not None:
+                cov.stop()
+        if cov is not None:
+            rep = cov.report()
+            expect = impcov.expectation(VERIF).get(pid, {})
+            unexpected = {rel: [q for q in r["functions_never_entered"] if q not in expect.get(rel, [])] for rel, r in rep.items()}
+            unexpected = {k: v for k, v in unexpected.items() if v}
+            ck.cov["implementation_coverage"] = {
+                "what": "statement lines of the property's anchored files executed in this process by the harness body (sys.monitoring)",
+                "files": rep,
+                "functions_not_reached_and_not_expected": unexpected,
+            }
+            if unexpected:
+                ck.notes.append("implementation coverage: anchored functions not reached by this run and not listed in harness/impcov_expect.json: "
+                                + json.dumps(unexpected)[:1500])
         rc = ck.finish(level=level)
         if ck.replay_obj is not None:
             # replay mode: exit 1 iff the recorded failure is still there
